@@ -43,7 +43,13 @@ Inductive case :=
 | CPipe (valid : bool) (ts : list ptok) (want : option pfilter) (impl : pfilter)
 (* a page of stored documents in the order of the unfiltered run, filter, documents of the
    filtered run in their order (search through the proxy / Fetch on the store) *)
-| CPage (page : list doc) (fields : list key) (allow : bool) (impl : list impl_doc).
+| CPage (page : list doc) (fields : list key) (allow : bool) (impl : list impl_doc)
+(* makeFetchReq called once per source with ONE filter value ff: the filters of the requests
+   (each read right after its call) and the caller's filter after all calls *)
+| CReq (ff : pfilter) (reqs : list pfilter) (after : pfilter).
+
+Definition req_matches (ff r : pfilter) : bool :=
+  same_names (pf_fields r) (pf_fields ff) && Bool.eqb (pf_allow r) (pf_allow ff).
 
 Definition case_agrees (c : case) : bool :=
   match c with
@@ -53,6 +59,9 @@ Definition case_agrees (c : case) : bool :=
   | CPage page fields allow impl =>
       Nat.eqb (length page) (length impl)
       && forallb (fun mi => impl_agrees (fst mi) (snd mi)) (combine (fetch_page page fields allow) impl)
+  | CReq ff reqs after =>
+      let '(m, mafter) := fetch_reqs ff (length reqs) in
+      forallb (fun mr => req_matches (fst mr) (snd mr)) (combine m reqs) && pf_eqb mafter after
   end.
 
 Definition case_spec_ok (c : case) : bool :=
@@ -67,6 +76,10 @@ Definition case_spec_ok (c : case) : bool :=
       (* same number of documents, the i-th is the projection of the i-th unfiltered one *)
       Nat.eqb (length page) (length impl)
       && forallb (fun di => impl_spec_ok (fst di) fields allow (snd di)) (combine page impl)
+  | CReq ff reqs after =>
+      (* every source is asked for the same set of names in the same mode, and the caller's
+         filter is what it was *)
+      forallb (req_matches ff) reqs && pf_eqb ff after
   end.
 
 Definition diff_indices (l : list case) : list nat := bad_indices (fun c => negb (case_agrees c)) l.
